@@ -43,3 +43,57 @@ Proof.
   unfold wf_dec, inb, ex_dec, two63. cbn [raw off stack dop_pre]. repeat split; try (vm_compute; congruence); try lia.
   repeat constructor; cbn; lia.
 Qed.
+
+(* ---------------------------------------------------------------- records layer *)
+From SV Require Import Wire.Records Wire.RecordsProofs Wire.BatchProofs Wire.RecordsSafety.
+
+Definition ex_record : record :=
+  mkRecord 0 7500000 3 None (Some [118; 49]) (Some [mkHeader (Some [104]) None; mkHeader None (Some [])]).
+Definition ex_batch : batch :=
+  mkBatch 100 (-1) 2 0 false true 1 1600000000123456789 ZERO_TIME 9 2 0
+    (Some [ex_record; mkRecord (-1) (-1) (-1) (Some []) None None]) false true.
+(* a toy codec for the example: codec 1 reverses the bytes *)
+Definition ex_compress (c : Z) (x : list Z) : option (list Z) := if c =? 1 then Some (rev x) else None.
+
+Example ex_record_ok : record_ok ex_record.
+Proof.
+  unfold record_ok, ex_record, in_i8, in_i64, obytes_ok, MAXLEN, two63. cbn [r_attrs r_tsdelta r_offdelta r_key r_value r_headers olist].
+  repeat split; try lia.
+  repeat (constructor; [unfold header_ok, obytes_ok, MAXLEN; cbn; split; lia|]). constructor.
+Qed.
+Example ex_batch_ok : batch_ok ex_batch.
+Proof.
+  unfold batch_ok, ex_batch, in_i64, in_i32, in_i16, ts_ok, two63, ZERO_TIME.
+  cbn [b_first_offset b_leader_epoch b_version b_codec b_last_offset_delta b_first_ts b_max_ts b_producer_id b_producer_epoch b_first_seq b_records olist].
+  repeat split; try lia; try (right; lia); try (left; reflexivity).
+  constructor; [exact ex_record_ok|]. constructor; [|constructor].
+  unfold record_ok, in_i8, in_i64, obytes_ok, MAXLEN, two63. cbn. repeat split; try lia. constructor.
+Qed.
+Example ex_batch_encodes :
+  match batch_ops ex_compress ex_batch with
+  | inr ops => match encode ops with EncOk bs => len bs = 61 + 21 | _ => False end
+  | inl _ => False
+  end.
+Proof. vm_compute. reflexivity. Qed.
+Example ex_batch_decodes :
+  match batch_ops ex_compress ex_batch with
+  | inr ops => match encode ops with
+               | EncOk bs => match batch_decode ex_compress (new_dec bs) with
+                             | Ok b d => b = norm_batch ex_batch /\ off d = len bs
+                             | _ => False end
+               | _ => False end
+  | inl _ => False
+  end.
+Proof. vm_compute. split; reflexivity. Qed.
+(* a compressed one (codec 1 of the toy codec, which is its own inverse) *)
+Example ex_batch_compressed :
+  let b := mkBatch 5 0 2 1 true false 0 0 0 0 0 0 (Some [ex_record; ex_record]) false false in
+  match batch_ops ex_compress b with
+  | inr ops => match encode ops with
+               | EncOk bs => match batch_decode ex_compress (new_dec bs) with
+                             | Ok b' d => b' = norm_batch b /\ off d = len bs
+                             | _ => False end
+               | _ => False end
+  | inl _ => False
+  end.
+Proof. vm_compute. split; reflexivity. Qed.
